@@ -589,11 +589,84 @@ def runPoolConc (r : Report) (s : Section) (limit : Nat) : Report := Id.run do
     | _ => r := r.mismatch s.idx l.idx "bad-op" (joinSp l.op)
   return r
 
+/-! ### the REST engine: `RestConf.MaxConns` through `buildChainWithNativeMiddlewares` (one latch per route) -/
+
+/-- the lines of a sequential engine section that address route `rt`, with the route token removed. -/
+def projectRoute (s : Section) (rt : Nat) : Section :=
+  { s with lines := s.lines.filterMap fun l =>
+      match l.op with
+      | o :: r :: rest => if r.toNat? = some rt then some { l with op := o :: rest } else none
+      | _ => none }
+
+/-- no limit configured (middleware off or `MaxConns <= 0`): every request is admitted. -/
+def runUnlimited (r : Report) (s : Section) : Report := Id.run do
+  let mut r := r
+  let mut inside := 0
+  for l in s.lines do
+    r := { r with ops := r.ops + 1 }
+    let impl := joinSp l.obs
+    let exp := match l.op with
+      | ["try"] => "ok"
+      | ["finish"] | ["finish", "panic"] => if inside > 0 then "ok" else "none"
+      | ["probe"] => "free=unlimited"
+      | _ => "bad-op"
+    if l.op = ["try"] then inside := inside + 1
+    if l.op.head? = some "finish" ∧ inside > 0 then inside := inside - 1
+    r := r.addCover "engine-unlimited-ops"
+    if exp ≠ impl then r := r.mismatch s.idx l.idx exp impl
+    if impl = "refused" then
+      r := r.violation s.idx l.idx "kind=engine request refused (503) although no connection limit is configured"
+  return r
+
+def splitRoutes (obs : List String) : List (List String) × Option String :=
+  let rec go (cur : List String) (acc : List (List String)) (glob : Option String) : List String → List (List String) × Option String
+    | [] => ((if cur = [] then acc else acc ++ [cur]), glob)
+    | t :: rest =>
+      if t.startsWith "route=" then go [] (if cur = [] then acc else acc ++ [cur]) glob rest
+      else match kv? [t] "global" with
+        | some g => go cur acc (some g) rest
+        | none => go (cur ++ [t]) acc glob rest
+  go [] [] none obs
+
+def runEngine (r : Report) (s : Section) (mode : String) : Report := Id.run do
+  let routes := kvNat s.cfg "routes" 1
+  let mw := kvNat s.cfg "mw" 1 = 1
+  let mc := kvInt s.cfg "n" 0
+  let cap := engineCap mw mc
+  let mut r := r.addCover (match cap with
+    | none => if mw then "engine-maxconns-nonpositive-no-limit" else "engine-middleware-off-no-limit"
+    | some _ => "engine-limit-per-route")
+  if mode = "seq" then
+    let covered := (List.range routes).foldl (fun k rt => k + (projectRoute s rt).lines.length) 0
+    if covered ≠ s.lines.length then r := r.mismatch s.idx 0 "every op names a route below routes=" (joinSp s.cfg)
+    for rt in List.range routes do
+      match cap with
+      | some c => r := runSeq r (projectRoute s rt) "maxconns" c
+      | none => r := runUnlimited r (projectRoute s rt)
+  else
+    match cap with
+    | none => r := r.mismatch s.idx 0 "a limit for concurrent engine sections" (joinSp s.cfg)
+    | some c =>
+      for l in s.lines do
+        r := { r with ops := r.ops + 1 }
+        let (blocks, glob) := splitRoutes l.obs
+        if blocks.length ≠ routes then r := r.mismatch s.idx l.idx s!"{routes} route blocks" (toString blocks.length)
+        for b in blocks do
+          r := runHistory r s.idx l.idx "maxconns" c b
+        match glob.bind (·.toNat?) with
+        | some g =>
+          -- one latch PER ROUTE: all routes together may hold up to routes·MaxConns requests
+          if routes * c < g then r := r.violation s.idx l.idx s!"kind=engine {g} requests inside at once, routes={routes} MaxConns={c}"
+          if c < g then r := r.addCover "engine-observed-more-than-MaxConns-inside-across-routes"
+        | none => r := r.mismatch s.idx l.idx "global=<nat>" (joinSp l.obs)
+  return r
+
 def semKinds : List String := ["limit", "tlimit", "runner", "maxconns", "mr", "fx", "wgroup"]
 
 def runSection (r : Report) (s : Section) : Report :=
   let kind := kvStr s.cfg "kind"
   let mode := kvStr s.cfg "mode"
+  if kind = "engine" then runEngine r s mode else
   match (kv? s.cfg "n").bind (·.toNat?) with
   | none => r.mismatch s.idx 0 "cfg n=<nat>" (joinSp s.cfg)
   | some n =>
